@@ -130,6 +130,18 @@ func (u *ixUniverse) project(i *types.Index) ixProj {
 	return p
 }
 
+// childDesc is the descriptor of a child as an index body lists it: such descriptors often carry a reference name
+// annotation of their own, which must never make the child answer to a tag
+func (u *ixUniverse) childDesc(c string) types.Descriptor {
+	d := u.desc(c, "", "")
+	for k, x := range u.digs {
+		if x == c && len(u.tags) > 0 {
+			d.Annotations = map[string]string{types.AnnotRefName: u.tags[k%len(u.tags)]}
+		}
+	}
+	return d
+}
+
 func (u *ixUniverse) apply(i *types.Index, o ixOp) (panicked bool) {
 	defer func() {
 		if r := recover(); r != nil {
@@ -141,7 +153,7 @@ func (u *ixUniverse) apply(i *types.Index, o ixOp) (panicked bool) {
 		if len(o.Children) > 0 {
 			ch := []types.Descriptor{}
 			for _, c := range o.Children {
-				ch = append(ch, u.desc(c, "", ""))
+				ch = append(ch, u.childDesc(c))
 			}
 			i.AddDesc(u.desc(o.D, o.T, o.S), types.IndexWithChildren(ch))
 		} else {
@@ -152,7 +164,7 @@ func (u *ixUniverse) apply(i *types.Index, o ixOp) (panicked bool) {
 	case "AddChildren":
 		ch := []types.Descriptor{}
 		for _, c := range o.Children {
-			ch = append(ch, u.desc(c, "", ""))
+			ch = append(ch, u.childDesc(c))
 		}
 		i.AddChildren(ch)
 	}
